@@ -30,6 +30,12 @@ def build(rng):
         x = rng.random()
         if x < 0.3: cmd += ' arg'
         elif x < 0.45: cmd += rng.choice([' $(b) c', ' `b` c', ' <(b) c', ' x$(b $(c))y z', ' "$(b)" c', ' $(b) >f'])     # a nested parser runs while the here-document is pending
+    # a substitution AFTER the last operator that holds a here-document of its own (its body ends before the outer body starts:
+    # whoever computes "the end of the last here-document" must not take the last one visited); \x00 stands for its newlines until the
+    # operator line has been laid out
+    if rng.random() < 0.15:
+        cmd += rng.choice([' $(cat <<I\x00i\x00I\x00) c', ' <(cat <<I\x00i\x00I\x00)', ' "$(d <<-I\x00\ti\x00\tI\x00)"', ' x$(e <<I\x00I\x00)y z', ' `cat <<I\x00i\x00I\x00`'])
+        tags += '+innerdoc'
     wrap, wt = rng.choice(WRAPS)
     tags += wt
     if k > 1: tags += '+multi'
@@ -72,7 +78,7 @@ def build(rng):
         text += follow
         nxt = start if not wt else 0
     params.append(nxt)
-    return text, params, tags
+    return text.replace('\x00', '\n'), params, tags
 
 def run(ctx):
     tier, seed, findings = ctx['tier'], ctx['seed'], ctx['findings']
